@@ -20,7 +20,8 @@ class Contract:
     def __init__(self, file, func, params=None, requires=(), ensures=(), raises=None, may_raise=None,
                  modifies=(), returns=None, yields=None, loops=(), ghost=None, inline=False, trusted=False,
                  canaries=(), note='', variants=None, lemmas=(), cls_fields=None, eager_generator=True,
-                 name=None, prop=None, allow_exc=(), ensures_exc=None, timeout=None, assume=()):
+                 name=None, prop=None, allow_exc=(), ensures_exc=None, timeout=None, assume=(),
+                 ghost_post=None, exit_lemmas=(), domains=None, crosscheck=True, inline_at_calls=False, native_gen=None, exit_hints=(), ghost_init=None):
         self.file = file
         self.func = func
         self.params = params or {}
@@ -41,7 +42,16 @@ class Contract:
         self.prop = prop
         self.ensures_exc = dict(ensures_exc or {})   # exception class -> list of postconditions on raise
         self.timeout = timeout
-        self.assume = list(assume)     # extra axioms (strings) assumed at entry: recorded as assumptions
+        self.assume = list(assume)
+        self.ghost_post = dict(ghost_post or {})   # ghost name -> expression giving its value after the call
+        self.exit_lemmas = list(exit_lemmas)       # induction lemmas proved at normal exit, then assumed
+        self.domains = domains
+        self.crosscheck = crosscheck
+        self.inline_at_calls = inline_at_calls   # verified against its contract, but call sites execute the real body
+        self.native_gen = native_gen
+        self.ghost_init = dict(ghost_init or {})   # ghost locals: name -> initial value expression
+        self.exit_hints = list(exit_hints)   # terms (local-state expressions) offered to e-matching at exit; no logical content
+        self.lemmas = list(lemmas)     # extra axioms (strings) assumed at entry: recorded as assumptions
 
     @property
     def key(self):
@@ -54,6 +64,7 @@ class Registry:
         self.verify = []         # contracts to verify (may contain several variants per function)
         self.spec_modules = []   # python modules whose functions are spec functions
         self.spec_funcs = {}
+        self.alternatives = {}   # (file, func) -> contracts chosen at a call site when their `applies` says so
 
     def add(self, c, verify=True, callable_=True):
         if callable_:
@@ -62,9 +73,22 @@ class Registry:
             self.verify.append(c)
         return c
 
+    def add_alternative(self, c, applies):
+        c.applies = applies
+        self.alternatives.setdefault(c.key, []).append(c)
+        return c
+
     def add_spec_source(self, text):
         import ast
         tree = ast.parse(text)
         for n in tree.body:
             if isinstance(n, ast.FunctionDef):
                 self.spec_funcs[n.name] = n
+
+
+class Induction:
+    """Lemma by induction on an integer: claim(lo) and (lo <= n < hi and claim(n) -> claim(n+1)) are
+    obligations; then forall n in [lo, hi]: claim(n) is available as a hypothesis."""
+
+    def __init__(self, var, lo, hi, claim, name='lemma'):
+        self.var, self.lo, self.hi, self.claim, self.name = var, lo, hi, claim, name
